@@ -102,7 +102,7 @@ def hparams(m):
 def tree_cases(ctx, lines, expect):
     import optimum.quanto as q
     rng = ctx.rng
-    n = 150 if not ctx.thorough else 1500
+    n = 150 if not ctx.thorough else 6000
     for _ in range(n):
         dt = rng.choice([torch.float32, torch.float16, torch.bfloat16])
         torch.manual_seed(rng.getrandbits(30))
@@ -189,7 +189,7 @@ def forward_cases(ctx, lines, expect):
     import optimum.quanto as q
     from optimum.quanto import QBytesTensor
     rng = ctx.rng
-    n = 120 if not ctx.thorough else 1200
+    n = 120 if not ctx.thorough else 5000
     for _ in range(n):
         dt = rng.choice([torch.float32, torch.float16, torch.bfloat16])
         torch.manual_seed(rng.getrandbits(30))
